@@ -774,6 +774,36 @@ def hardlink_farm(rep, ctx, stats):
                                bad=bad[:20]), found_input=True)
     shutil.rmtree(base, ignore_errors=True)
 
+def unknown_size_sparse(rep, ctx, stats):
+    """A streamed zip member carries its length behind the data, so the disk writer learns the size of the file only from
+    the data it receives.  With -S (sparse extraction) zero runs are skipped: also the one at the end of the file."""
+    base = os.path.join(ctx.scratch, "zs")
+    src, dst = os.path.join(base, "src"), os.path.join(base, "dst")
+    shutil.rmtree(base, ignore_errors=True)
+    os.makedirs(src); os.makedirs(dst)
+    files = {"tail-zeros": b"DATA" * 100 + bytes(20000), "all-zeros": bytes(12288), "mid-zeros": b"a" * 5000 + bytes(9000) + b"z" * 10,
+             "tiny": b"x", "zeros-then-byte": bytes(8192) + b"1" + bytes(4095)}
+    for n, b in files.items():
+        with open(os.path.join(src, n), "wb") as f:
+            f.write(b)
+    for tag, flags in (("zip-stream-S", "-xpSf"), ("zip-stream", "-xpf")):
+        shutil.rmtree(dst, ignore_errors=True); os.makedirs(dst)
+        cmd = "%s -cf - --format zip -C %s . | %s %s - -C %s" % (q(ctx.bsdtar), q(src), q(ctx.bsdtar), flags, q(dst))
+        rc, out, err = sh(ctx, cmd)
+        stats["evaluations"] += 1
+        bad = []
+        for n, b in files.items():
+            try:
+                got = open(os.path.join(dst, n), "rb").read()
+            except OSError:
+                bad.append("%s missing" % n); continue
+            if got != b:
+                bad.append("%s: %d bytes restored, %d archived%s" % (n, len(got), len(b), "" if len(got) != len(b) else " (content differs)"))
+        if rc != 0 or bad:
+            rep.violation("C12:unknown-size:%s" % tag, "[%s] files restored from a streamed zip differ: rc=%d %s %s" % (tag, rc, "; ".join(bad[:4]), err[-200:].replace("\n", " | ")),
+                          dict(pipeline=tag, cmd=cmd, files={n: len(b) for n, b in files.items()}, bad=bad), found_input=True)
+    shutil.rmtree(base, ignore_errors=True)
+
 def run(rep):
     pr = vlib.proof_part(rep, "C12")
     ctx = setup(rep)
@@ -794,6 +824,10 @@ def run(rep):
             rep.violation("crash:treeWalk:%s:probe-%s" % (vlib.crash_key(ex.err), name),
                           "harness stopped (rc=%s) on probe %s: %s" % (ex.rc, name, squeeze(ex.err)[-400:].replace("\n", " | ")),
                           dict(tree=vfmt(tree), case=ex.lines[0][:2000], stderr=ex.err[-3000:], probe=name), found_input=True)
+    try:
+        unknown_size_sparse(rep, ctx, stats)
+    except Exception as ex:
+        rep.violation("C12:unknown-size:could-not-run", "streamed-zip extraction could not be run: %r" % (ex,), dict(error=repr(ex)), found_input=False)
     try:
         hardlink_farm(rep, ctx, stats)
     except Exception as ex:
